@@ -33,3 +33,92 @@ def truncate_chars(c):
         oracle="exc is None and (r == val if len(val) <= num else (r.endswith(end) and len(r) <= max(num, len(end))))",
         witness="'len(val)==num' if len(val) == num else ('num<len(end)' if num < len(end) else 'other')",
     )
+
+
+# ---------------------------------------------------------------- integer arithmetic filters
+
+from contracts.common import *  # noqa: F403,E402
+from pyvc.state import *  # noqa: F403,E402
+
+MATH = "liquid.builtin.filters.math"
+
+
+def _int_math(name, spec, nargs=2, pre=None, raises=()):
+    @contract(f"{MATH}:{name}", prop="C25", name=f"{name}[int operands]")
+    def im(c):
+        std_globals(c)
+        a, b = c.int("num"), c.int("other")
+        if pre is not None:
+            c.requires(pre(a.t, b.t), "divisor is not zero")
+        c.call(*([a, b][:nargs]))
+
+        def post(r):
+            v = box(r.value)
+            return z3.And(U.is_int(v), spec(a.t, b.t, U.i(v)))
+        c.ensures("agrees-with-exact-integer-arithmetic(result-is-an-int)", post)
+        c.raises(*raises)
+        c.assume_note("ints are mathematical integers (Python ints are unbounded)")
+        c.replay("code", code=REPLAY_MATH)
+
+
+def _floor_div(a, b, q):
+    # q = floor(a / b): b*q <= a < b*(q+1) for b > 0, b*q >= a > b*(q+1) for b < 0
+    return z3.If(b > 0, z3.And(b * q <= a, a < b * (q + 1)), z3.And(b * q >= a, a > b * (q + 1)))
+
+
+def _floor_mod(a, b, r):
+    q = z3.Int("q!mod")
+    return z3.And(z3.If(b > 0, z3.And(0 <= r, r < b), z3.And(b < r, r <= 0)), z3.Exists([q], a == b * q + r))
+
+
+_int_math("plus", lambda a, b, r: r == a + b)
+_int_math("minus", lambda a, b, r: r == a - b)
+_int_math("times", lambda a, b, r: r == a * b)
+_int_math("divided_by", _floor_div, pre=lambda a, b: b != 0)
+_int_math("modulo", _floor_mod, pre=lambda a, b: b != 0)
+_int_math("abs_", lambda a, b, r: r == z3.If(a >= 0, a, -a), nargs=1)
+_int_math("at_least", lambda a, b, r: r == z3.If(a >= b, a, b))
+_int_math("at_most", lambda a, b, r: r == z3.If(a <= b, a, b))
+_int_math("ceil", lambda a, b, r: r == a, nargs=1)
+_int_math("floor", lambda a, b, r: r == a, nargs=1)
+_int_math("round_", lambda a, b, r: r == a, nargs=1)
+
+
+for _name in ("divided_by", "modulo"):
+    def _mk(name):
+        @contract(f"{MATH}:{name}", prop="C25", name=f"{name}[zero divisor]")
+        def dz(c):
+            std_globals(c)
+            a = c.int("num")
+            c.call(a, const(0))
+            c.ensures("division-by-zero-is-a-filter-error-not-a-result", lambda r: z3.BoolVal(False))
+            c.raises("FilterArgumentError")
+            c.replay("code", code=REPLAY_MATH)
+    _mk(_name)
+
+
+REPLAY_MATH = r'''
+def run(m):
+    from liquid import Environment
+    env = Environment()
+    bad = []
+    vals = [0, 1, -1, 2, -2, 3, 7, -7, 10**30 + 1, -(10**30) - 1]
+    import math
+    for a in vals:
+        for b in vals:
+            exp = {"plus": a + b, "minus": a - b, "times": a * b, "at_least": max(a, b), "at_most": min(a, b)}
+            if b != 0:
+                exp["divided_by"] = a // b
+                exp["modulo"] = a % b
+            for f, want in exp.items():
+                got = env.from_string("{{ a | " + f + ": b }}").render(a=a, b=b)
+                if got != str(want):
+                    bad.append((f, a, b, got, want))
+    return {"violated": bool(bad), "observed": bad[:5]}
+'''
+
+
+not_covered("C25", "float operands (decimal arithmetic through decimal.Decimal is compared with exact rationals in the bounded check only)",
+            "string and array filters are decided by the bounded check against references written from the statement; their bodies are comprehension/str-method one-liners under the trusted builtin models")
+
+bounded("C25", "bounded/C25.py")
